@@ -95,6 +95,8 @@ def schedule_text(f):
             t.append(f"call {c['client']} {c['op']} {c['a'][2:]} {c['b'][2:]}")
         for w in seg.get("script", []):
             t.append(f"sw {w['from']} {w['at_yield']} {w['to']}")
+        if seg.get("repeat", 1) > 1:
+            t.append(f"rep {seg['repeat']}")
     t.append(f"victim {f['victim']['segment']} {f['victim']['call']}")
     return "\n".join(t) + "\n"
 
@@ -112,12 +114,16 @@ def describe(f):
     for seg in f["segments"]:
         calls = " || ".join(f"c{c['client']}:{c['op']}({c['a']}{',' + c['b'] if int(c['b'], 16) else ''})" for c in seg["calls"])
         sw = [w for w in seg.get("script", []) if w["from"] != 255 and w["at_yield"] >= 0]
+        if seg.get("repeat", 1) > 1:
+            calls += f" x{seg['repeat']}"
         if seg.get("respawn_before"):
             calls = "restart[" + ",".join(f"c{c}" for c in seg["respawn_before"]) + "] " + calls
         if len(seg["calls"]) > 1:
             calls = "{ " + calls + " }" + (" preempt[" + ", ".join(f"c{w['from']}@{w['at_yield']}->c{w['to']}" for w in sw) + "]" if sw else "")
         parts.append(calls)
     v = f["segments"][f["victim"]["segment"]]["calls"][f["victim"]["call"]]
+    if len(parts) > 12:
+        parts = parts[:5] + [f"... {len(parts) - 10} more steps ..."] + parts[-5:]
     return " ; ".join(parts) + f"   victim=c{v['client']}:{v['op']}"
 
 
@@ -146,7 +152,7 @@ def write_evidence(tier, seed, cov, wall, violations, assumptions):
 
 SUMMED = ["runs", "calls", "forks", "nontrivial_runs", "isolation_checks", "disagreements", "signals_caught", "items_lost",
           "hung_children", "unstable", "fine_executions", "concurrent_segments", "concurrent_calls", "yield_points",
-          "preemptions", "baton_handoffs", "long_runs", "very_long_runs", "churn_runs", "planned_respawns", "threads_started",
+          "preemptions", "baton_handoffs", "long_runs", "very_long_runs", "hot_loop_runs", "crowd_runs", "churn_runs", "planned_respawns", "threads_started",
           "access_records", "nonstack_writes_observed", "conflicting_call_pairs", "plans_with_conflicts", "directed_executions"]
 
 
@@ -174,7 +180,7 @@ def run_check(tier, seed):
     alias_same, alias_cross, adjacency = {}, {}, set()
     per_cell = {}
     found, unstable, samples = [], [], []
-    max_threads = max_len = 0
+    max_threads = max_len = clients_hist_crowd = 0
     for j, (rc, fnd, st, uns, err) in zip(jobs, results):
         if st is None:
             print(f"check.py: worker seed0={j['seed0']} on [{j['cell']}] produced no STATS (rc={rc}): {err[:300]}", file=sys.stderr)
@@ -185,6 +191,7 @@ def run_check(tier, seed):
             per_op[k] = per_op.get(k, 0) + v
         for i in range(8):
             clients_hist[i] += st["clients_hist"][i]
+        clients_hist_crowd += st["crowd_runs"]
         max_threads = max(max_threads, st["max_threads_in_one_execution"]); max_len = max(max_len, st["max_plan_len"])
         for k, v in st["alias_same_client"].items():
             alias_same[k] = alias_same.get(k, 0) + v
@@ -293,8 +300,10 @@ def run_check(tier, seed):
         "processes_forked": total["forks"],
         "simulated_time": "not applicable: the library has no clock, timer or deadline; progress is counted in calls and yield points",
         "build_cells": per_cell,
-        "clients_per_run_histogram": {str(i + 1): clients_hist[i] for i in range(8)},
-        "plan_lengths": {"runs_with_150_plus_calls": total["long_runs"], "runs_with_3000_plus_calls": total["very_long_runs"], "longest_plan": max_len},
+        "clients_per_run_histogram": dict({str(i + 1): clients_hist[i] for i in range(8)}, **{"more_than_8": clients_hist_crowd}),
+        "plan_lengths": {"runs_with_150_plus_calls": total["long_runs"], "runs_with_3000_plus_calls": total["very_long_runs"],
+                         "hot_loop_runs_70000_plus_calls": total["hot_loop_runs"], "longest_plan": max_len},
+        "crowd_runs_66_to_90_live_callers": total["crowd_runs"],
         "thread_churn": {"runs_with_thread_restarts": total["churn_runs"], "planned_restarts": total["planned_respawns"],
                          "caller_threads_started": total["threads_started"], "most_threads_seen_by_one_process": max_threads},
         "operations_in_catalogue": ops_total, "operations_exercised": ops_hit, "operations_never_called": never,
